@@ -15,9 +15,10 @@ Recorded defects (the model has them, as the code has):
 * F5      cache id = module name = `re.sub(r"\W","_",uri)` is not injective  → `no_cross_template_service_*`
 * F17.1   an `invalidate_body/def/closure` issued before the callable's first render freezes the callable's
           `_def_regions` entry to the Template's `cache_args` alone                → `args_every_render_*`
-* F17.2   `write_inline_def` hands `buffered=False` to the decorator: a cached nested def / anonymous block
-          writes its content where the uncached one returns it                 → `cached_delivers_like_uncached_*`
-* F17.3   `BeakerCacheImpl` defines `put`, `Cache.set` calls `impl.set`        → `set_then_get_*`
+
+Repaired in /repo (the model follows, the full statements are proved):
+* F17.2   `write_inline_def` now hands its `buffered` flag to the decorator (ec9a6d2) → `cached_delivers_like_uncached`
+* F17.3   `BeakerCacheImpl` now defines `set` (b9a6f20)                             → `set_then_get`
 -/
 namespace MakoModel.C17
 open MakoModel.Cache MakoModel.Generated.Cache
@@ -389,33 +390,21 @@ theorem invalidate_def_is_callable_name (h : Hdr) :
 
 /-! ## delivery: cached × buffered × filtered -/
 
-/-
-OPEN (F17.2) – a cached section hands its content over the way the uncached section does (returned iff buffered):
-
+/-- **cached_delivers_like_uncached.**  A cached section hands its content over the way the uncached section does:
+    returned iff `buffered` (then an expression filter at the call site applies to it, and a block's value is dropped),
+    written otherwise – for module-level callables and, since `write_inline_def` passes `buffered` on
+    (`gen_inline_passes_buffered`, regenerated from `codegen.py`), for nested defs and anonymous blocks too. -/
 theorem cached_delivers_like_uncached (h : Hdr) (site : Bool) (v : Str) :
-    deliver h site v = deliver { h with cached := false } site v
-
-It fails for callables written by `write_inline_def` (nested defs, anonymous blocks): the decorator is generated with
-`buffered=False`, so the cached callable writes its content and returns `''`.
--/
-
-/-- **cached_delivers_like_uncached_partial** – guard: not (buffered and inline). -/
-theorem cached_delivers_like_uncached_partial (h : Hdr) (site : Bool) (v : Str)
-    (hg : h.buffered = false ∨ isInline h.kind = false) :
     deliver h site v = deliver { h with cached := false } site v := by
-  rcases hg with hb | hi
-  · cases hc : h.cached <;> simp [deliver, returnsValue, hb, hc]
-  · cases hc : h.cached <;> simp [deliver, returnsValue, hi, hc]
+  have hg := gen_inline_passes_buffered
+  cases hc : h.cached <;> simp [deliver, returnsValue, hc, hg]
 
-example : exF.buffered = false ∨ isInline exF.kind = false := Or.inl rfl
-
-/-- **cached_delivers_like_uncached_counterexample**: `<%def name="g()" cached="True" buffered="True">` nested in a def,
-    called as `${g() | wrapS}` with content `G`: cached `G<>`, uncached `<G>`; and a cached+buffered anonymous block
-    shows its content while the uncached buffered one shows nothing. -/
-theorem cached_delivers_like_uncached_counterexample :
-    deliver exG true "G".toList = "G<>".toList ∧
+/-- `<%def name="g()" cached="True" buffered="True">` nested in a def, called as `${g() | wrapS}` with content `G`:
+    `<G>` cached and uncached; a buffered anonymous block shows nothing, cached or not -/
+example :
+    deliver exG true "G".toList = "<G>".toList ∧
     deliver { exG with cached := false } true "G".toList = "<G>".toList ∧
-    deliver { exG with kind := .anonBlock } false "G".toList = "G".toList ∧
+    deliver { exG with kind := .anonBlock } false "G".toList = [] ∧
     deliver { exG with kind := .anonBlock, cached := false } false "G".toList = [] := by decide +kernel
 
 /-- the section's own filter is applied before the value is stored, so a hit replays the filtered text -/
@@ -468,28 +457,20 @@ theorem no_cross_template_service_counterexample :
 
 /-! ## `cache.set` / `cache.get` -/
 
-/-
-OPEN (F17.3) – what `cache.set(k, v, **kw)` puts, `cache.get(k, **kw)` returns:
-
-theorem set_then_get (w : World R) (st : St R) (t : Nat) (tm : Tmpl) (k v : Str) (kw : Kw) (ht : w.tmpls[t]? = some tm) :
-    (step w (step w st (.set t k v kw)).2 (.get t k kw)).1 = .got (some v)
-
-It fails on mako's Beaker implementation: `Cache.set` calls `impl.set`, `BeakerCacheImpl` defines `put`.
--/
-
-/-- **set_then_get_partial** – guard: the implementation overrides `CacheImpl.set`. -/
-theorem set_then_get_partial (w : World R) (st : St R) (t : Nat) (tm : Tmpl) (k v : Str) (kw : Kw)
-    (ht : w.tmpls[t]? = some tm) (hs : w.be.hasSet = true) :
+/-- **set_then_get.**  What `cache.set(k, v, **kw)` puts, `cache.get(k, **kw)` returns (the `CacheImpl` contract; mako's
+    own Beaker implementation has `set` – `gen_beaker_defines_set`, regenerated from `ext/beaker_cache.py`). -/
+theorem set_then_get (w : World R) (st : St R) (t : Nat) (tm : Tmpl) (k v : Str) (kw : Kw)
+    (ht : w.tmpls[t]? = some tm) :
     (step w (step w st (.set t k v kw)).2 (.get t k kw)).1 = .got (some v) := by
-  simp [step, ht, hs]
+  simp [step, ht]
 
-example : exW.be.hasSet = true := rfl
+example : exW.tmpls[0]? = some (exTm "/a-b.html" "first ") := rfl
 
-/-- **set_then_get_counterexample**: with the Beaker implementation as the translator read it, `set` raises and `get`
-    finds nothing. -/
-theorem set_then_get_counterexample :
-    responses exWBeaker (St.init exWBeaker)
-      [.set 0 "k".toList "v".toList [], .get 0 "k".toList []] = [.notImplemented, .got none] := by decide +kernel
+/-- … and a `get` after `invalidate` finds nothing -/
+theorem invalidate_then_get (w : World R) (st : St R) (t : Nat) (tm : Tmpl) (k : Str) (kw : Kw)
+    (ht : w.tmpls[t]? = some tm) :
+    (step w (step w st (.invalidate t k kw)).2 (.get t k kw)).1 = .got none := by
+  simp [step, ht, invalidateCore, getCacheKw]
 
 /-- a value put with `set` under a section's key is what the section then serves (a `set` is an entry like any other) -/
 example : responses exW (St.init exW) [.set 0 "render_body".toList "SET".toList [], .render 0 (ctx "1")] =
